@@ -23,14 +23,15 @@ LEVEL_TEXT = ('static analysis: (D1) match_ref_to_sample interpreted on literal 
               'no edge, rmask); (D4) apply_weights interpreted with symbolic bin sizes / variances on targets and antitargets, pooled and flat '
               'reference: the interval of every stored weight lies inside [1e-4, 1] (epsilon default 1e-4, not overridden by do_fix); (D5) do_fix'
               ' centres last (apply_weights, then center_all(skip_low=True, PAR genome), nothing stored afterwards -- decided in the D3 table), '
-              'and center_all itself shifts by one constant estimated from the covered autosomal bins (C15-D1 rule); (D6) center_by_window '
-              'applies one seeded permutation to both the bins and the covariate, sorts by the covariate with a stable sort, subtracts the '
-              'rolling median of log2 in that order and re-sorts genomically; (D7) role-flow of the correction flags; (D8) load_adjust_coverages '
-              'interpreted over all flag / column combinations with index provenance: sample rows are sorted (on a copy) before matching, and at '
-              'return the sample and reference tables carry the same kind of index (both filtered-in-place or both renumbered), so the label-'
-              'aligned subtraction pairs each bin with its own reference bin. (D9) edge_losses / edge_gains are the documented rational functions'
-              ' of target size, gap and insert size in every order case (exact identities over symbols). Does not decide rolling-median values, '
-              'depth-scale invariance or weight monotonicity.')
+              'and center_all itself shifts by one constant estimated from the covered autosomal bins (C15-D1 rule); (D6) no draw comes from a '
+              'generator object that outlives the call; center_by_window applies one seeded permutation to both the bins and the covariate, sorts'
+              ' by the covariate with a stable sort, subtracts the rolling median of log2 in that order and re-sorts genomically; (D7) role-flow '
+              'of the correction flags; (D8) load_adjust_coverages interpreted over all flag / column combinations with index provenance: sample '
+              'rows are sorted (on a copy) before matching, and at return the sample and reference tables carry the same kind of index (both '
+              'filtered-in-place or both renumbered), so the label-aligned subtraction pairs each bin with its own reference bin; '
+              'GenomicArray.sort itself orders literal shuffled tables by (natural chromosome order, start, end), ties in input order, renumbered'
+              ' (C08 rule). (D9) edge_losses / edge_gains are the documented rational functions of target size, gap and insert size in every '
+              'order case (exact identities over symbols). Does not decide rolling-median values, depth-scale invariance or weight monotonicity.')
 TECHNIQUE = "dominance (must-pass-through); abstract interpretation over order positions and over index-provenance tags; structural dataflow of the windowed correction; role-flow"
 
 FIX = "cnvlib.fix"
